@@ -11,6 +11,17 @@ NOTE_COMMON = ("Theorems are about a hand-written Lean model; the model is tied 
                "float rounding measured not proved. Axioms: propext, Classical.choice, Quot.sound only.")
 
 CLAIMS = {
+ "C16": dict(
+   text="Partial proof (Lean 4): sheet_names_unique — for EVERY list of labels for which allocation succeeds the exported sheet names "
+        "are pairwise distinct, at most 31 characters and free of : / ? * \\ [ ] (induction over the labels; the suffix search "
+        "is bounded by 998 attempts and the facts about the 998 suffixes are a kernel-decided table); target_returns_last_loaded — "
+        "for every load/target history the wrapper returns the result of the problem loaded last (invariant over the history); "
+        "repeat_target_cached. Models tied to the code on 1500 label lists and 40 histories per run. Channel equality (dict, "
+        "validated model, value-with-unit, wrapper, JSON file, CSV directory, CSV pair, workbook) is NOT a theorem (the readers are "
+        "pandas/pydantic code): one logical problem is written through all eight channels and every record compared, 25 problems "
+        "per quick run.",
+   technique="Lean 4 proof (sheet names, wrapper cache) + relational testing across input channels + correspondence",
+   design="§6 C16"),
  "C02": dict(
    text="Proof (Lean 4): di_balance (direct-integration record: Qh-Qc = cold-hot duty, Qr = hot-Qc, all >= 0 for non-negative CP; "
         "corollary of the C01 closed form, any number of streams/rows), tz_balance (sums of balanced records are balanced, by "
